@@ -304,10 +304,12 @@ def updateWeights (s : FmState) (env : FmEnv) (receiver : Addr) (lp : Denom) (am
   let w ← calculateWeight amount unlocking
   let e ← fit U64_MAX (cur + 1) .panic
   let cw := latestWeight (s.hist env.self lp)
-  let cw' ← if fill then ckAdd U128_MAX cw w else pure (cw - w)
+  let uw := latestWeight (s.hist receiver lp)
+  -- on close, the same amount `min(weight, user_weight)` leaves the total and the user (F-07 fix)
+  let removed := min w uw
+  let cw' ← if fill then ckAdd U128_MAX cw w else pure (cw - removed)
+  let uw' ← if fill then ckAdd U128_MAX uw w else pure (uw - removed)
   let s1 := s.setHist env.self lp (histSet (s.hist env.self lp) e cw')
-  let uw := latestWeight (s1.hist receiver lp)
-  let uw' ← if fill then ckAdd U128_MAX uw w else pure (uw - w)
   pure (s1.setHist receiver lp (histSet (s1.hist receiver lp) e uw'))
 
 /-- `reconcile_user_state(receiver, position)` -/
@@ -466,7 +468,8 @@ def assertFarmAsset (funds : List Coin) (fee asset : Coin) : R Unit := do
     | some c => pure c | none => .error .mismatch
   if fee.denom != asset.denom then
     if sent.amount ≠ asset.amount then .error .mismatch
-    if funds.length ≠ 2 then .error .mismatch
+    -- with a zero fee only the reward is due (F-05 fix)
+    if funds.length ≠ (if fee.amount = 0 then 1 else 2) then .error .mismatch
   else
     let t ← ckAdd U128_MAX asset.amount fee.amount
     if t ≠ sent.amount then .error .mismatch
